@@ -177,15 +177,32 @@ func BuildGraph(f *Func, body *ast.BlockStmt) *Graph {
 					if e, ok := t.AST.(ast.Expr); ok {
 						c.Expr = e
 						c.Tag = sw.Tag
+						if sw.Tag == nil {
+							c.Expr = ConstRight(info, e)
+						}
 					}
 				}
 			default:
 				if e, ok := t.AST.(ast.Expr); ok {
-					c.Expr = e
+					c.Expr = ConstRight(info, e)
 				}
 			}
 			t.Cond = c
-			t.Succs = append(t.Succs, Edge{To: heads[b.Succs[0]], Label: EdgeTrue}, Edge{To: heads[b.Succs[1]], Label: EdgeFalse})
+			// "if !x" is "if x" with the edges exchanged: conditions are kept without the
+			// outer negation, so that a branch written the other way round is the same branch
+			l0, l1 := EdgeTrue, EdgeFalse
+			// (loop heads keep theirs: the true edge of a loop head is the loop body to every rule)
+			if c.Expr != nil && c.Tag == nil && s0.Kind == cfg.KindIfThen && os.Getenv("PDFVERIF_KEEPNOT") == "" {
+				for {
+					u, ok := ast.Unparen(c.Expr).(*ast.UnaryExpr)
+					if !ok || u.Op != token.NOT {
+						break
+					}
+					c.Expr = ConstRight(info, u.X)
+					l0, l1 = l1, l0
+				}
+			}
+			t.Succs = append(t.Succs, Edge{To: heads[b.Succs[0]], Label: l0}, Edge{To: heads[b.Succs[1]], Label: l1})
 		default:
 			for _, s := range b.Succs {
 				t.Succs = append(t.Succs, Edge{To: heads[s]})
